@@ -819,13 +819,18 @@ class Gen:
                 self.any_refs.append((vr[1], vr[3]))
         n_defs = n_defs if n_defs is not None else self.r.range(1, 5)
         names = [self.fresh("type") for _ in range(n_defs)]
-        self.type_names += names
+        # a definition may refer to EARLIER definitions only: reference cycles (`A ::= A`, A -> B -> A)
+        # are not legal ASN.1 and make the real resolver/converter overflow its stack — that is
+        # property C14's domain (finding class front.cyclic_reference), not C07/C12's
+        base = list(self.type_names)
         defs = []
-        for nm in names:
+        for idx, nm in enumerate(names):
+            self.type_names = base + names[:idx]
             ty = self.ty(0)
             if ty[0] == "enum":
                 self.enum_defs.append((nm, [v for v, _ in ty[1]]))
             defs.append(("def", nm, self.tag(5), ty))
+        self.type_names = base + names
         items = vrs + defs
         # source order: any interleaving of value references and definitions
         if self.r.chance(1, 2):
